@@ -302,8 +302,6 @@ pub fn run(tier: Tier) -> i32 {
     }
     report.cov("exhaustive", true);
     report.cov("rule", "one child process per kill point: every event of the scripted history (each item operation, each cancel poll, each progress call, before/after each commit) and the boundary before every write-family system call on data.mdb (pwrite / fdatasync / pwrite of each commit, counted by the LD_PRELOAD shim); a point is non-trivial when the child was really killed there; the reopened raw dump must equal the reference dump of the last acknowledged version, or of the version whose commit was in flight, and then open, satisfy S and answer exact queries");
-    report.sample(json!({"kill": "event 57 (a cancel poll inside the build of version 1)", "expected": "empty database (no commit acknowledged)"}));
-    report.sample(json!({"kill": "before the fdatasync of the second commit", "expected": "version 1, or version 2 if the meta page already points to it"}));
     report.finish()
 }
 
@@ -356,6 +354,7 @@ fn run_scenario(report: &mut Report, scenario_name: &str) {
     let versions_seen: Mutex<BTreeMap<(usize, usize), u64>> = Mutex::new(BTreeMap::new());
     let first: Mutex<Option<Violation>> = Mutex::new(None);
     let machinery: Mutex<Vec<String>> = Mutex::new(Vec::new());
+    let shown: Mutex<Vec<serde_json::Value>> = Mutex::new(Vec::new());
     points.par_iter().enumerate().for_each(|(i, p)| {
         if first.lock().unwrap().is_some() {
             return;
@@ -377,6 +376,13 @@ fn run_scenario(report: &mut Report, scenario_name: &str) {
                     match judge(&dir, &sc, &run, &refs, &models) {
                         Ok(v) => {
                             *versions_seen.lock().unwrap().entry((run.last_ack, v)).or_insert(0) += 1;
+                            // a few actual kill points for the evidence: the first ones, and those inside a commit
+                            if i < 2 || run.committing.is_some() {
+                                let mut s = shown.lock().unwrap();
+                                if s.len() < 6 {
+                                    s.push(json!({"scenario": scenario_name, "killed_at": name, "last_acknowledged_commit": run.last_ack, "commit_in_flight": run.committing, "version_found_after_reopen": v}));
+                                }
+                            }
                         }
                         Err((c, m)) => {
                             let mut f = first.lock().unwrap();
@@ -403,6 +409,9 @@ fn run_scenario(report: &mut Report, scenario_name: &str) {
         report.machinery_error(m);
     }
     let seen = versions_seen.into_inner().unwrap();
+    for s in shown.into_inner().unwrap().into_iter().take(3) {
+        report.sample(s);
+    }
     report.cov_add("evaluations", points.len() as u64);
     report.cov_add("distinct_nontrivial", interrupted.load(Ordering::Relaxed));
     report.cov_add("killed_with_a_commit_in_flight", mid_commit.load(Ordering::Relaxed));
